@@ -207,7 +207,9 @@ Definition spec_col_set_lists (L : lcol) (nm : string) (ty : ety) (ls : list (li
   if keep_dtype && negb (name_in (names_of L) nm) then Err else
   if keep_dtype && negb (match field_pos (lsch L) nm with Some k => ety_eqb (snd (nth k (lsch L) (nm, ty))) ty | None => false end) then Err else
   if negb (length ls =? lcol_nrows L) then Err else
-  if negb (list_eqb Nat.eqb (map (@length val) ls) (lrow_lengths L)) then Err else
+  (* replacing the ONLY field: there is no other field to agree with, any lengths make a table *)
+  let only := match lsch L with [nt] => String.eqb (fst nt) nm | _ => false end in
+  if negb only && negb (list_eqb Nat.eqb (map (@length val) ls) (lrow_lengths L)) then Err else
   Ok (spec_set_field L nm ty ls).
 
 Definition spec_col_fill (L : lcol) (nm : string) (ty : ety) (vs : list val) (keep_dtype : bool) : res lcol :=
